@@ -6,8 +6,12 @@
                  bytes; a record with neither (cannot happen while the index invariant holds) writes no count ("ERROR").
     load_map   : ReadVLen, then per record binary.Read of the key and newAddrBal: ReadVarInt / DecompressAmount,
                  ReadVarInt count, count = 0 → nil; `int(count) >= useMapCnt` → map layout else list layout.
-                 A read error in load_map's own reads returns WITHOUT assigning allBalances[idx] (the previous map stays);
-                 a nil from newAddrBal is stored in the map as a nil pointer and the loop goes on.
+                 A read error in load_map's own reads, or a nil from newAddrBal (short file, count 0), returns WITHOUT assigning
+                 allBalances[idx] and without setting the file's `ok` flag (before the fix a nil record was stored as a nil
+                 pointer and the loop went on; a file cut inside its LAST record was accepted with that nil record).
+    LoadBalances: all IDX_CNT files must have set their `ok` flag; otherwise InitMaps(true) (every map empty), an error is
+                 returned and the wallet stays OFF (before the fix the test was `allBalances[i] == nil`, which is false after a
+                 Disable() and for the nil-record case above: the index was switched ON with a wrong map).
   `btc.WriteVarInt/ReadVarInt` are the base-128 VARINT of Bitcoin Core's chainstate (uint64 wrap explicit),
   `btc.WriteVlen/ReadVLen` the CompactSize of C10's model (`putULe` / `UtxoRec.readVLen`), amounts C10's AmountCompress.
   Core-only.
@@ -81,9 +85,12 @@ def loadRecs (um : Nat) : Nat → Bytes → Option (List (Nat × Option Bal))
     if shorter b 8 then none
     else
       let (ob, r) := newAddrBal um (b.drop 8)
-      match loadRecs um n r with
-      | none => none
-      | some l => some ((leVal (b.take 8), ob) :: l)
+      match ob with
+      | none => none          -- since fix: a record that cannot be read (short file, count 0) refuses the whole file
+      | some _ =>
+        match loadRecs um n r with
+        | none => none
+        | some l => some ((leVal (b.take 8), ob) :: l)
 
 /-- `load_map` on the file content: `none` = allBalances[idx] keeps its previous value -/
 def loadPairs (um : Nat) (file : Bytes) : Option (List (Nat × Option Bal)) :=
@@ -98,5 +105,18 @@ def loadMap (um : Nat) (file : Option Bytes) (prev : List (Nat × Option Bal)) :
   | some f => match loadPairs um f with
     | none => prev
     | some l => l.reverse      -- lookup by `aget`: the LAST pair of the file with a key wins
+
+/-- `LoadBalances` over the files of all address types (`none` = file missing): `some maps` = every file loaded, the index is
+    switched on with exactly these maps; `none` = refused: InitMaps(true), error returned, the wallet stays off -/
+def loadAll (um : Nat) : List (Option Bytes) → Option (List (List (Nat × Option Bal)))
+  | [] => some []
+  | none :: _ => none
+  | some f :: rest =>
+    match loadPairs um f with
+    | none => none
+    | some l =>
+      match loadAll um rest with
+      | none => none
+      | some ls => some (l.reverse :: ls)
 
 end GocoinV.Model.BalancesDisk
